@@ -48,6 +48,7 @@ type chainGen struct {
 	delivered  []int
 	byIns      map[string]aTx
 	modelAlive bool
+	nviews     int
 	restarts   int
 	dupTxs     int
 }
@@ -410,6 +411,21 @@ func (g *chainGen) extend(p *gNode) bool {
 func (g *chainGen) observe() {
 	r := g.r
 	dumpOK := g.dumpOK()
+	switch r.Intn(8) {
+	case 6:
+		if len(g.delivered) > 0 {
+			g.ops = append(g.ops, fmt.Sprintf("V%d", g.delivered[r.Intn(len(g.delivered))]))
+			g.nviews++
+		}
+		return
+	case 7:
+		if g.nviews > 0 && r.Bool() {
+			g.ops = append(g.ops, "W")
+		} else {
+			g.ops = append(g.ops, "C")
+		}
+		return
+	}
 	switch r.Intn(6) {
 	case 0, 1:
 		g.ops = append(g.ops, "O")
@@ -560,6 +576,9 @@ func genChain(r *core.Rand, profile int, maxOps int, long bool) (string, string,
 		}
 	}
 	g.ops = append(g.ops, "P", "O")
+	if g.nviews > 0 {
+		g.ops = append(g.ops, "W")
+	}
 	c = cfg0
 	class := "chain"
 	switch {
@@ -659,6 +678,15 @@ func (P) Generate(g *core.Gen) {
 	for i, n := 0, g.N(0, 400); i < n; i++ {
 		line, class, nt := genChain(r.Fork(), 1+i%3, 60, false)
 		g.Case(class+"-long", nt, line)
+	}
+	// independent instances side by side (hidden shared state between chains / caches)
+	for i, n := 0, g.N(25, 150); i < n; i++ {
+		var subs []string
+		for k := 0; k < multiMax; k++ {
+			line, _, _ := genChain(r.Fork(), 1+(i+k)%3, 6+2*k, false)
+			subs = append(subs, strings.TrimPrefix(line, "C03 chain "))
+		}
+		g.Case("multi8", true, "C03 multi "+strings.Join(subs, " ## "))
 	}
 	for i, n := 0, g.N(2000, 12000); i < n; i++ {
 		line, nt := genCache(r.Fork(), 24)
